@@ -180,6 +180,15 @@ def build(tier, work, builder):
         helpers.append(X.function(src, hn, r"^static (?:inline )?std::ostream& %s\(std::ostream& os, double \w+\)" % re.escape(hn)))
     write(work, "double_helper.inc", "\n".join(h.text for h in helpers) + "\n")
     slices += [ccl] + helpers
+    # ---- K4: quantifier binders
+    bcl = []
+    for lab in ("FORALL", "EXISTS", "SUM"):
+        cl = X.switch_clause(src, f"expression_t::print:case {lab}", pf, lab)
+        cl.sub("L12:print on a child->contract", r"\)\.print\(", ").print__contract(")
+        bcl.append(cl)
+    qtxt += ("std::ostream& expression_t::print_quantifier_clauses(std::ostream& os, bool old) const\n{\n    switch (data->kind) {\n"
+             + "\n".join(c.text for c in bcl) + "\n    default: break;\n    }\n    return os;\n}\n")
+    slices += bcl
     write(work, "query_print_funcs.inc", qtxt)
     slices += q + [fc] + bl + [ist, pbt] + qcl
     qobj = builder.cc(os.path.join(CDIR, "pq03.cpp"), includes=[work, os.path.join(X.REPO, "include")], cpp=True)
@@ -192,6 +201,9 @@ def build(tier, work, builder):
     jobs.append(F.Job("c03_double_text", "h_c03_double_text", [qobj, hobj], timeout=300, unwind=42,
                       functions=["expression_t::print (CONSTANT clause)", "expression_t::print (probability bound of PROBA_MIN_BOX/PROBA_MIN_DIAMOND)"] + [h.name + " (expression.cpp, static)" for h in helpers],
                       note="K3: a floating-point constant is written as text that reads back as exactly the same value and lexes as a floating-point literal; libc conversions by assumed contracts A-fp1..3"))
+    jobs.append(F.Job("c03_quantifier_binder", "h_c03_quantifier_binder", [qobj, hobj], timeout=300, unwind=42,
+                      functions=["expression_t::print (FORALL / EXISTS / SUM clauses)"],
+                      note="K4: the binder's type is written in declaration syntax (what the grammar's Type production reads), not in the diagnostic format of type_t::str()"))
     return {
         "jobs": jobs, "slices": [s.info() for s in slices],
         "drops": ["operator spellings and all other text the printer emits (only parentheses and which child is printed are logged)",
